@@ -29,7 +29,7 @@ package fiber
 // parseAddr (checked against its body; `defines` only names the result): host = raw up to a ':' (the last one, by
 // strings.LastIndex), port = the rest; no ':' => host = raw.
 //@ func parseAddr
-//@   props C10 C06
+//@   props C10 C06 C07
 //@   pure
 //@   defines result0 == parseAddrHost(raw)
 //@   ensures [C06] host-is-prefix-of-raw: len(result0) <= len(raw) && result0 == raw[:len(result0)]
